@@ -1356,3 +1356,44 @@ func slotCase(i int) ([]byte, string) {
 	}
 	return sc, fmt.Sprintf("slots|l%d|a%d|p%d|k%d|i%d", l, a, p, kind, idx)
 }
+
+// eqValues are structured values for the all-pairs EQUAL / NOTEQUAL family.
+func eqValues() []val {
+	st := func(parts ...[]byte) []byte { // struct of the given members (first = index 0)
+		var c []byte
+		for i := len(parts) - 1; i >= 0; i-- {
+			c = append(c, parts[i]...)
+		}
+		return cat(c, pushI(int64(len(parts))), op(s.PACKSTRUCT))
+	}
+	i1, i2 := pushI(1), pushI(2)
+	a, b := pushData([]byte("a")), pushData([]byte("b"))
+	return []val{
+		{st(), "", "struct[]"}, {st(i1), "", "struct[1]"}, {st(i2), "", "struct[2]"}, {st(i1, i2), "", "struct[1,2]"}, {st(i2, i1), "", "struct[2,1]"},
+		{st(st(i1)), "", "struct[struct[1]]"}, {st(st(i2)), "", "struct[struct[2]]"}, {st(st()), "", "struct[struct[]]"},
+		{st(st(st(i1))), "", "struct[struct[struct[1]]]"}, {st(st(st(i2))), "", "struct[struct[struct[2]]]"},
+		{st(i1, st(i1, a)), "", "struct[1,struct[1,'a']]"}, {st(i1, st(i1, b)), "", "struct[1,struct[1,'b']]"},
+		{st(op(s.NEWARRAY0)), "", "struct[array[]]"}, {st(op(s.NEWMAP)), "", "struct[map{}]"}, {st(pushBuf([]byte("a"))), "", "struct[buffer 'a']"},
+		{st(a), "", "struct['a']"}, {st(b), "", "struct['b']"}, {st(pushI(97)), "", "struct[97]"}, {st(op(s.PUSHNULL)), "", "struct[null]"},
+		{st(op(s.PUSHT)), "", "struct[true]"}, {st(pushData([]byte{1})), "", "struct[bytes 01]"}, {st(op(s.PUSHA, 0, 0, 0, 0)), "", "struct[pointer]"},
+		{cat(i1, pushI(1), op(s.PACK)), "", "array[1]"}, {op(s.NEWARRAY0), "", "array[]"}, {op(s.NEWMAP), "", "map{}"},
+		{a, "", "'a'"}, {pushI(97), "", "97"}, {op(s.PUSHT), "", "true"}, {i1, "", "1"}, {op(s.PUSHNULL), "", "null"},
+		{cat(st(i1), op(s.CONVERT, s.TArray)), "", "array from struct[1]"},
+	}
+}
+
+func eqCase(i int, vals []val) ([]byte, string) {
+	n := len(vals)
+	x := mixRadix(i, n, n, 4)
+	a, b := vals[x[1]], vals[x[0]]
+	switch x[2] {
+	case 0:
+		return cat(a.code, b.code, op(s.EQUAL)), "EQUAL(" + a.desc + ", " + b.desc + ")"
+	case 1:
+		return cat(a.code, b.code, op(s.NOTEQUAL)), "NOTEQUAL(" + a.desc + ", " + b.desc + ")"
+	case 2: // two structs sharing the member object a
+		return cat(a.code, op(s.DUP), op(s.PUSH1), op(s.PACKSTRUCT), op(s.SWAP), op(s.PUSH1), op(s.PACKSTRUCT), op(s.EQUAL)), "EQUAL(struct[x], struct[x]) x=" + a.desc
+	default: // a value against its own APPENDed (struct-copied) member
+		return cat(op(s.NEWARRAY0), a.code, op(s.OVER), op(s.OVER), op(s.APPEND), op(s.SWAP), op(s.PUSH0), op(s.PICKITEM), op(s.EQUAL)), "EQUAL(x, copy stored by APPEND) x=" + a.desc
+	}
+}
